@@ -399,7 +399,9 @@ Proof. unfold clear_mesh. cbv zeta. split; cbn; constructor. Qed.
 
 Lemma collect_garbage_noop s : deferred s && needs_gc s = false -> collect_garbage s = s.
 Proof.
-  intros H. unfold collect_garbage. destruct (deferred s), (needs_gc s); try discriminate; reflexivity.
+  intros H.
+  assert (C : negb (deferred s) || negb (needs_gc s) = true) by (destruct (deferred s), (needs_gc s); try discriminate; reflexivity).
+  unfold collect_garbage. rewrite C. reflexivity.
 Qed.
 
 Ltac some_inj E E' := match type of E with Some ?x = Some ?y => assert (E' : x = y) by congruence end.
@@ -952,8 +954,10 @@ Proof. intros a b c d ([F C]&D&Fa). split; [split; [rewrite a; exact F | rewrite
 (* garbage collection in fast mode keeps the valences *)
 Lemma kshape_collect_garbage_fast kf kc s : kshape kf kc s -> fast s = true -> kshape kf kc (collect_garbage s) /\ fast (collect_garbage s) = true /\ deferred (collect_garbage s) = deferred s.
 Proof.
-  intros K Fa. unfold collect_garbage. destruct (negb (deferred s) || negb (needs_gc s)) eqn:G; [split; [exact K | split; [exact Fa | reflexivity]]|].
+  intros K Fa. destruct (negb (deferred s) || negb (needs_gc s)) eqn:G.
+  { unfold collect_garbage. rewrite G. split; [exact K | split; [exact Fa | reflexivity]]. }
   assert (D : deferred s = true) by (destruct (deferred s); [reflexivity | discriminate]).
+  unfold collect_garbage. rewrite G.
   cbv zeta.
   set (s0 := set_flags (vbu s) (ebu s) (fbu s) false (fast s) s).
   assert (Q0 : fastq kf kc s0) by (split; [destruct K; split; assumption | split; [reflexivity | exact Fa]]).
@@ -1550,3 +1554,33 @@ Definition parity_witness : list top :=
   [TK (AddVertices 6); THalfEdge 0 1; TAddCellV [0; 3; 2; 4] true; TAddCellV [0; 4; 2; 5] true; TK (PropCreate KHE 0%Z)]
   ++ map (fun i => TK (PropSet KHE 0 i (Z.of_nat (100 + i)))) (seq 0 20).
 
+Definition parity_before : mesh := tet_run parity_witness.
+Definition parity_after : mesh := match collapse_edge parity_before 0 with Some (s', _) => s' | None => empty_mesh end.
+
+Lemma parity_collapse : collapse_edge parity_before 0 = Some (parity_after, 1).
+Proof. vm_compute. reflexivity. Qed.
+
+Lemma collapse_props_refuted :
+  dshape parity_before /\ collapse_edge parity_before 0 = Some (parity_after, 1) /\
+  ~ he_values_follow parity_before parity_after 0 /\
+  (* the halfedge 0->3, used by ONE rebuilt tet, is carried to 1->3; 0->2, used by TWO, is dropped *)
+  find_halfedge parity_after 1 3 = Some 20 /\ phe_val parity_after 0 20 = phe_val parity_before 0 2 /\
+  find_halfedge parity_after 1 2 = Some 23 /\ phe_val parity_after 0 23 = 0%Z /\ phe_val parity_before 0 7 = 107%Z.
+Proof.
+  assert (H1 : In 0 (rebuilt_cells parity_before 0)) by (vm_compute; left; reflexivity).
+  assert (H2 : In 2 (cell_at parity_before 0)) by (vm_compute; right; left; reflexivity).
+  assert (H3 : In 7 (halfface parity_before 2)) by (vm_compute; left; reflexivity).
+  assert (H4 : 0 < length (phe parity_before)) by (vm_compute; repeat constructor).
+  assert (H5 : he_from parity_before 7 = he_from parity_before 0) by (vm_compute; reflexivity).
+  assert (F' : find_halfedge parity_after 1 2 = Some 23) by (vm_compute; reflexivity).
+  assert (T0 : he_to parity_before 0 = 1) by (vm_compute; reflexivity).
+  assert (T7 : he_to parity_before 7 = 2) by (vm_compute; reflexivity).
+  assert (V1 : phe_val parity_after 0 23 = 0%Z) by (vm_compute; reflexivity).
+  assert (V2 : phe_val parity_before 0 7 = 107%Z) by (vm_compute; reflexivity).
+  split; [split; [apply tet_shape_run; vm_compute; repeat split | vm_compute; reflexivity]|].
+  split; [exact parity_collapse|]. split; [|repeat split; vm_compute; reflexivity].
+  intros H. unfold he_values_follow in H.
+  destruct (H 0 2 7 0 H1 H2 H3 H4 H5) as (h'&F&V).
+  rewrite T0, T7, F' in F. inversion F; subst h'.
+  rewrite V1, V2 in V. discriminate.
+Qed.
